@@ -95,6 +95,16 @@ def paceSigma (C : ℕ → ℕ → F) (σ2 : F) (i j : ℕ) : F := C i j + (if i
 def scoresPace (m : ℕ) (lam : ℕ → F) (Y Phi : ℕ → ℕ → F) (i k : ℕ) : F :=
   lam k * ∑ j ∈ range m, Y i j * Phi k j
 
+/-- `mfpca._transform_numerical_integration_multivariate`: the multivariate score is the sum over the `P`
+components of the univariate numerical-integration scores (`np.array(scores).sum(axis=0)`); component `p`
+has `m p` grid points, weights `w p`, projected data `Z p`, eigenfunction blocks `Psi p`. -/
+def scoresMulti (P : ℕ) (m : ℕ → ℕ) (w : ℕ → ℕ → F) (Z Psi : ℕ → ℕ → ℕ → F) (i k : ℕ) : F :=
+  ∑ p ∈ range P, scoresW (m p) (w p) (Z p) (Psi p) i k
+
+/-- Product-space inner product of two multivariate functions `Σ_p ⟨x_p, y_p⟩_{w_p}`. -/
+def innerMultiW (P : ℕ) (m : ℕ → ℕ) (w : ℕ → ℕ → F) (x y : ℕ → ℕ → F) : F :=
+  ∑ p ∈ range P, innerWF (m p) (w p) (x p) (y p)
+
 end generic
 
 /-! ### ℚ-specific procedures (what the code literally loops over) -/
